@@ -4,8 +4,8 @@ import sys, os, shutil, json, re
 pid = sys.argv[1]
 rnd = int(sys.argv[2]) if len(sys.argv) > 2 else 1
 for k in (1, 2):
-    src = {1: '/tmp/wt-%s/mutants/m%d', 2: '/tmp/wt2-%s/mutants/m%d', 3: '/tmp/wt3-%s/mutants/m%d', 4: '/tmp/wt4-%s/mutants/m%d', 5: '/tmp/wt5-%s/mutants/m%d', 6: '/tmp/wt6-%s/mutants/m%d'}[rnd] % (pid, k)
-    log = {1: '/tmp/confirm-%s-m%d.log', 2: '/tmp/confirm2-%s-m%d.log', 3: '/tmp/confirm3-%s-m%d.log', 4: '/tmp/confirm4-%s-m%d.log', 5: '/tmp/confirm5-%s-m%d.log', 6: '/tmp/confirm6-%s-m%d.log'}[rnd] % (pid, k)
+    src = {1: '/tmp/wt-%s/mutants/m%d', 2: '/tmp/wt2-%s/mutants/m%d', 3: '/tmp/wt3-%s/mutants/m%d', 4: '/tmp/wt4-%s/mutants/m%d', 5: '/tmp/wt5-%s/mutants/m%d', 6: '/tmp/wt6-%s/mutants/m%d', 7: '/tmp/wt7-%s/mutants/m%d'}[rnd] % (pid, k)
+    log = {1: '/tmp/confirm-%s-m%d.log', 2: '/tmp/confirm2-%s-m%d.log', 3: '/tmp/confirm3-%s-m%d.log', 4: '/tmp/confirm4-%s-m%d.log', 5: '/tmp/confirm5-%s-m%d.log', 6: '/tmp/confirm6-%s-m%d.log', 7: '/tmp/confirm7-%s-m%d.log'}[rnd] % (pid, k)
     if not os.path.isdir(src) or not os.path.exists(log):
         print('missing', src, log); continue
     txt = open(log).read()
@@ -13,7 +13,7 @@ for k in (1, 2):
     if not m or '24 passes, 0 failures' not in m.group(1) or m.group(2) == '0' or m.group(3) != '0':
         print('NOT CONFIRMED', pid, k, txt[-300:]); continue
     # round 6 covered the seven properties round 5 skipped, so its mutants continue at m9/m10
-    dst = '/verif/seeded/%s-m%d' % (pid, k + 2 * (min(rnd, 5) - 1))
+    dst = '/verif/seeded/%s-m%d' % (pid, k + 2 * (min(rnd, 5) - 1) + (2 if rnd == 7 else 0))
     os.makedirs(dst, exist_ok=True)
     for f in ('patch.diff', 'demo.cpp', 'notes.txt'):
         shutil.copy(os.path.join(src, f), dst)
